@@ -28,6 +28,8 @@ type cfgSpecJ struct {
 type cfgCase struct {
 	Cfgs  []cfgSpecJ `json:"cfgs"`
 	Bytes []int      `json:"bytes"`
+	// false: some spec of the case has no well-formed section 4 encoding (empty key, no suite, name of 0 or > 255 bytes)
+	Encodable bool `json:"encodable"`
 	// the same list, the first config's cipher_suites vector carrying 1..3 dangling bytes (all lengths consistent)
 	Dangling [][]int `json:"dangling"`
 	// one-config lists whose ECHConfigContents are cut to their first 0..n-1 bytes, the enclosing lengths consistent
@@ -64,6 +66,12 @@ func checkCfgCase(c *cfgCase) (diff string) {
 			sp.MaximumNameLength = 1
 		}
 		enc, err := sp.Bytes()
+		if !c.Encodable {
+			if err == nil {
+				return fmt.Sprintf("ConfigSpec.Bytes produced an ECHConfig (%d bytes) for a spec that has no well-formed section 4 encoding (public key %d bytes, %d cipher suites, public name %d bytes)", len(enc), len(x.PK), len(x.Suites), len(x.Name))
+			}
+			return ""
+		}
 		if err != nil {
 			return "ConfigSpec.Bytes: " + err.Error()
 		}
